@@ -38,6 +38,8 @@ class EBExec(Exec):
         arrivals = []
         gaps = []
 
+        items = self.items()
+
         def produce():
             import time
             for i in range(cfg['n']):
@@ -46,7 +48,7 @@ class EBExec(Exec):
                 if g > 0:
                     time.sleep(g)
                 arrivals.append(s.now)
-                q.put(i)
+                q.put(items[i])
             g = alphabet[s.choose(len(alphabet), 'gap-end')]
             gaps.append(g)
             if g > 0:
@@ -67,6 +69,11 @@ class EBExec(Exec):
         pt.join()
         return batches, arrivals, t_end
 
+    def items(self):
+        # with a custom end marker, None is an ordinary data item
+        na = self.cfg.get('none_at')
+        return [None if i == na else i for i in range(self.cfg['n'])]
+
     def observe(self, r):
         if r.error is not None:
             return r.error[0]
@@ -82,8 +89,16 @@ class EBExec(Exec):
         batches, arrivals, t_end = r.value
         n, bs, w = cfg['n'], cfg['bs'], cfg['w']
         flat = [x for b, _ in batches for x in b]
-        if flat != list(range(n)):
-            return ('wrong-partition', f'batches {batches} do not concatenate to 0..{n - 1}')
+        items = self.items()
+        if flat != items:
+            return ('wrong-partition', f'batches {batches} do not concatenate to the input {items}')
+        # (positions below are indices into the input; batches are mapped back by position)
+        pos = 0
+        ibatches = []
+        for b, ty in batches:
+            ibatches.append((list(range(pos, pos + len(b))), ty))
+            pos += len(b)
+        batches = ibatches
         if any(not (1 <= len(b) <= bs) for b, _ in batches):
             return ('bad-batch-size', f'batches {batches} with batch_size {bs}')
         t_free = 0.0   # time at which the batcher was ready to take the first item of the next batch
@@ -136,6 +151,9 @@ class EBH(Harness):
                         else:
                             d = 2 if n <= 2 else (1 if n <= 4 else 0)
                         out.append(dict(bs=bs, w=w, end=end, n=n, bound=d, cap=300000))
+                        if end == 'END' and n == 3:
+                            for na in (0, 1, 2):
+                                out.append(dict(bs=bs, w=w, end=end, n=n, none_at=na, bound=0, cap=300000))
         return out
 
     def new(self, cfg):
